@@ -63,7 +63,8 @@ KWARGS = [dict(), dict(p=0.5), dict(do_forks=False), dict(accessible_cells=5, ma
           dict(p=0.1, extra=dict(a=[1, 2, dict(b=None)], s="x\"y"), q=[]), dict(lattice_dim=2, accessible_cells=0.25, start_coord=[1, 1])]
 ENDPOINTS = [dict(), dict(deadend_start=True), dict(allowed_start=[(0, 0), (1, 1)], allowed_end=[(2, 2)]),
              dict(except_when_invalid=False, deadend_end=True, allowed_end=None), dict(allowed_start=[]),
-             dict(allowed_start=[(0, 1)], deadend_start=False, deadend_end=True, except_when_invalid=True, allowed_end=[(1, 0), (0, 0)])]
+             dict(allowed_start=[(0, 1)], deadend_start=False, deadend_end=True, except_when_invalid=True, allowed_end=[(1, 0), (0, 0)]),
+             dict(endpoints_not_equal=True), dict(deadend_start=True, deadend_end=True, endpoints_not_equal=False)]
 FILTERS = [[], [dict(name="path_length", args=(3,), kwargs=dict())],
            [dict(name="start_end_distance", args=(), kwargs=dict(min_distance=2))],
            [dict(name="collect_generation_meta", args=(), kwargs=dict(clear_in_mazes=True, inplace=False)),
